@@ -67,15 +67,17 @@ def run(ck):
     t = lambda b: "TRUE" if b else "FALSE"
     # design: a member whose successor list names departed nodes only is a dead end of convergence.  Instance with a list of 2 entries
     # (the code's 4 need 7 nodes): three consecutive successors of a node leave
-    for cfgname, fd in (("MC_ChordRing_dead.cfg", ringcheck.CODE_FIXDEAD), ("MC_ChordRing_dead.cfg", False)):
-        if fd and not ringcheck.CODE_FIXDEAD:
-            continue
-        with open(__import__("os").path.join(vf.VERIF, "spec", cfgname)) as f:
-            text = f.read().replace("FixDead = TRUE", "FixDead = %s" % t(fd))
-        rd = ck.tlc("MC_ChordRing", text, allow_error=True, timeout=1500, workers=min(vf.NCPU, 8), count=fd == ringcheck.CODE_FIXDEAD)
-        if fd == ringcheck.CODE_FIXDEAD and rd.error:
-            ck.notes.append("ChordRing (as implemented) reaches a state in which a member's successor list names departed nodes only (%s): the real fixpoints below decide" % rd.error["name"])
-        if not fd and ringcheck.CODE_FIXDEAD and not rd.error:
+    with open(__import__("os").path.join(vf.VERIF, "spec", "MC_ChordRing_dead.cfg")) as f:
+        dead_cfg = f.read()
+    if ck.thorough or not ringcheck.CODE_FIXDEAD:      # the whole space of the instance (4.8 M states): thorough tier
+        rd = ck.tlc("MC_ChordRing", dead_cfg.replace("FixDead = TRUE", "FixDead = %s" % t(ringcheck.CODE_FIXDEAD)), allow_error=True, timeout=2400,
+                    workers=min(vf.NCPU, 12))
+        if rd.error:
+            ck.notes.append("ChordRing (as implemented) reaches a state in which a member's successor list names departed nodes only and stabilize "
+                            "cannot repair it (%s): the real fixpoints below decide" % rd.error["name"])
+    if ringcheck.CODE_FIXDEAD:                         # without the fallback TLC must find the dead end (the instance is not vacuous)
+        rv = ck.tlc("MC_ChordRing", dead_cfg.replace("FixDead = TRUE", "FixDead = FALSE"), allow_error=True, timeout=900, workers=4, count=False)
+        if not rv.error:
             raise vf.Infra("ChordRing without the fallback is expected to violate InvNoDeadEnd (vacuous instance?)")
     r = ck.tlc("MC_ChordRing", LIVE_CFG % dict(fp=t(ringcheck.CODE_FIXPRED), fl=t(ringcheck.CODE_FIXLEAVE), fw=t(ringcheck.CODE_FIXWRAP), fd=t(ringcheck.CODE_FIXDEAD)),
                allow_error=True, timeout=1500, workers=min(vf.NCPU, 12))
